@@ -33,6 +33,9 @@ def fresh_repo(dst):
 def demo_cmd(seed):
     run = open(os.path.join(seed, "run.txt")).read().strip().splitlines()[0]
     run = run.split("#")[0].strip()
+    # "Place … at tests/…, then from the repository root: cargo test …": keep the command
+    if not re.match(r"^(cargo|cp|bash|sh|python3|TMPDIR=|RUST|CARGO)", run) and "cargo " in run:
+        run = run[run.index("cargo "):]
     # run.txt refers to SEED/X/...: make the path absolute
     run = re.sub(r"\bSEED/[AB]/", seed.rstrip("/") + "/", run)
     run = run.replace("cargo test --offline", "cargo test --offline -q").replace("cargo nextest", "cargo nextest")
